@@ -72,10 +72,15 @@ def run(sid, prop, tier="quick"):
     rc, out = sh(["git", "-C", "/repo", "apply", os.path.join(d, "patch.diff")])
     assert rc == 0, out
     t = time.time()
+    # the evidence file belongs to the unchanged tree: keep it
+    evp = os.path.join(V, "evidence", prop + ".json")
+    saved = open(evp).read() if os.path.exists(evp) else None
     try:
         rc, out = sh([os.path.join(V, "check"), prop, tier], cwd=V, timeout=7200)
     finally:
         sh("git -C /repo checkout -- .")
+        if saved is not None:
+            open(evp, "w").write(saved)
     lines = [l for l in out.splitlines() if l.startswith(("VIOLATION", "OK ", "KNOWN", "TOOL-ERROR", "  "))]
     print("\n".join(lines[:12]))
     print("exit=%d wall=%.0fs" % (rc, time.time() - t))
